@@ -57,6 +57,32 @@ Theorem line_too_long_on_prefix_is_final : forall m e b c,
 Proof. exact next_line_toolong_stable. Qed.
 Print Assumptions line_too_long_on_prefix_is_final.
 
+(* A stream whose last line so far ends in a bare CR: everything before it is parsed and
+   dispatched, the last line is held back with its CR (it may be half of a CRLF) ... *)
+Theorem sse_trailing_cr_is_held_back : forall m, 0 <= m -> forall ls l, wft m ls (l ++ [13]) = true ->
+  clean l = true -> len l <= m ->
+  sse_feed m (init_sse, []) (render ls ++ l ++ [13]) = (sse_of_lines init_sse (map fst ls), l ++ [13]).
+Proof. exact sse_trailing_cr_held. Qed.
+Print Assumptions sse_trailing_cr_is_held_back.
+
+(* ... and whatever arrives next, the outcome is that of the unsplit stream *)
+Theorem sse_trailing_cr_then_more : forall m, 0 <= m -> forall ls l more,
+  sse_feed_all m (init_sse, []) [render ls ++ l ++ [13]; more]
+  = sse_feed m (init_sse, []) (render ls ++ l ++ [13] ++ more).
+Proof. exact sse_trailing_cr_then. Qed.
+Print Assumptions sse_trailing_cr_then_more.
+
+(* FIELD RULE: n >= 1 lines "data: v_i" and a blank line dispatch exactly one event whose data is
+   the v_i joined by LF, with the current last-event-id and event name; the name is then reset *)
+Theorem sse_data_lines_joined_by_newline : forall vs s, e_parts s = [] -> vs <> [] ->
+  join_with [10] vs <> [] ->
+  sse_of_lines s (map data_line vs ++ [[]]) =
+  {| e_leid := e_leid s; e_name := []; e_parts := []; e_retry := e_retry s;
+     e_events := e_events s ++ [{| ev_id := e_leid s; ev_name := e_name s; ev_data := join_with [10] vs |}];
+     e_failed := false |}.
+Proof. exact sse_data_block. Qed.
+Print Assumptions sse_data_lines_joined_by_newline.
+
 (* non-vacuity: the two streams of the defect report, mixed endings, split inside CRLF *)
 Example c33_split_inside_crlf :
   let ev := {| ev_id := None; ev_name := []; ev_data := bz "x" ++ [10] ++ bz "y" |} in
